@@ -319,7 +319,10 @@ def emit_job(args):
                             exc=f"{type(e).__name__}: {str(e)[:80]}"))
             continue
         net.sent.clear()
-        a.gn.sequence_number = sn_pre
+        # bring the real counter to sn_pre through the public method only (its internal representation is not our business)
+        last_sn = None
+        for _ in range(sn_pre):
+            last_sn = a.gn.get_sequence_number()
         tc = TrafficClass.decode_from_int(tcv)
         nh = S.CommonNH.BTP_A if btp == "A" else S.CommonNH.BTP_B
         port, second = 2001, 0x1234
@@ -347,7 +350,7 @@ def emit_job(args):
         for name, ptt in cases:
             net.sent.clear()
             n += 1
-            sn_before = a.gn.sequence_number
+            sn_before = last_sn if last_sn is not None else 0
             try:
                 if name == "beacon":
                     net.call(a.gn.gn_data_request_beacon)
@@ -396,6 +399,8 @@ def emit_job(args):
                 exp_tail = (G.common_encode(G.CNH_ANY, G.HT_LS, 0, 0, mobile, 0, dhl)
                             + G.ext_ls_request(sn, so, G.addr_encode(0, 6, MIDC)))
                 rhl = dhl
+            if sn is not None:
+                last_sn = sn          # the counter advanced by one (checked through the emitted bytes below)
             ok = any(got == G.basic_encode(1, G.BNH_COMMON, 0, c, rhl) + exp_tail for c in ltc)
             distinct.add((name, mobile, tcv, btp, sn, pos))
             if not ok:
@@ -410,7 +415,9 @@ def emit_job(args):
                 net2 = Net()
                 c = net2.add("C", MIDC, lat=lat, lon=lon, mib_kw=mk, st=ST.BUS, refresh=False)
                 net2.call(c.refresh, lat, lon, speed, track)
-                c.gn.sequence_number = sn_pre
+                c_last = 0
+                for _ in range(sn_pre):
+                    c_last = c.gn.get_sequence_number()
                 n += 1
                 try:
                     net2.inject("C", got)
@@ -425,12 +432,39 @@ def emit_job(args):
                 apv = a.gn.ego_position_vector
                 de = G.spv_encode(G.addr_encode(0, enumval(a.addr.st), MIDA), apv.tst.msec, apv.latitude, apv.longitude)
                 exp_tail = (G.common_encode(G.CNH_ANY, G.HT_LS, 1, 0, mobile, 0, dhl)
-                            + G.ext_ls_reply((sn_pre + 1) % 65535, ego_lpv_ref(c), de))
+                            + G.ext_ls_reply((c_last + 1) % 65535, ego_lpv_ref(c), de))
                 if not any(fr[0] == G.basic_encode(1, G.BNH_COMMON, 0, cc, dhl) + exp_tail for cc in ltc):
                     exp = G.basic_encode(1, G.BNH_COMMON, 0, ltc[-1] if ltc else 0, dhl) + exp_tail
                     diff = [i for i in range(min(len(fr[0]), len(exp))) if fr[0][i] != exp[i]]
                     bad.append(dict(kind="emit_bytes", packet="ls_reply", mobile=mobile, diff_octets=diff[:10], got=fr[0].hex(), expected=exp.hex()))
     return n, bad, len(distinct)
+
+
+def sn_sweep_job(count):
+    """every sequence number through the real counter (incl. the wrap): one station emits GBC packets back to back"""
+    bad, n = [], 0
+    net = Net()
+    a = net.add("A", MIDA, lat=41.0, lon=2.0, ports=(2001,), mib_kw=dict(itsGnAreaForwardingAlgorithm=S.AreaForwardingAlgorithm.SIMPLE))
+    prev = None
+    seen = set()
+    for i in range(count):
+        net.sent.clear()
+        req = S.GNDataRequest(upper_protocol_entity=S.CommonNH.BTP_B, packet_transport_type=S.PacketTransportType(S.HeaderType.GEOBROADCAST, S.GeoBroadcastHST(0)),
+                              data=b"\x07\xd1\x00\x00s", length=5, max_hop_limit=3,
+                              area=S.Area(latitude=410000000, longitude=20000000, a=100, b=100, angle=0))
+        net.call(a.gn.gn_data_request, req)
+        n += 1
+        if len(net.sent) != 1:
+            bad.append(dict(kind="emit_count", packet="gbc0", count=len(net.sent)))
+            break
+        sn = G.parse(net.sent[0][1])["ext"]["sn"]
+        if prev is not None and sn != (prev + 1) % 65535:
+            bad.append(dict(kind="sequence_number_step", prev=prev, got=sn, expected=(prev + 1) % 65535))
+            if len(bad) > 5:
+                break
+        prev = sn
+        seen.add(sn)
+    return n, bad, len(seen)
 
 
 def _run_job(j):
@@ -458,9 +492,7 @@ def run(ctx):
                     for tcv in (tcs if pos == poss[0] else [0, 0xC5]):
                         ej.append((mobile, dhl, dlt, tcv, btp, pos, seqs_q if pos == poss[0] and tcv in (0,) else [7]))
     if thorough:
-        # every sequence number through the real counter for GBC (incl. wrap): chunks of start values
-        for start in range(0, 65536, 64):
-            ej.append((1, 10, 60, 0, "B", poss[0], list(range(start, start + 64))))
+        jobs.append((sn_sweep_job, 65600))
     jobs += [(emit_job, e) for e in ej]
     total = 0
     distinct = 0
